@@ -143,7 +143,7 @@ fn res<Z: Quantity>(z: Z) -> Value where Z::UnitType: Debug { json!([amt(z.amoun
 def enumerate_definitions(tier):
     defs = []
     n = 0
-    for d in defgen.ref_definitions(tier) + defgen.big_ref_definitions(tier) + defgen.huge_ref_definitions(tier) + defgen.long_literal_definitions(tier) + defgen.tiny_ref_definitions(tier) + defgen.noref_definitions(tier):
+    for d in defgen.ref_definitions(tier) + defgen.big_ref_definitions(tier) + defgen.huge_ref_definitions(tier) + defgen.long_literal_definitions(tier) + defgen.odd_name_definitions(tier) + defgen.tiny_ref_definitions(tier) + defgen.noref_definitions(tier):
         defs.append(defgen.uniquify(d, n))
         n += 1
     # derived: each result-type shape declared as A*B, A/B, A*A, AmountT/A over two fresh base definitions
